@@ -144,7 +144,8 @@ CKDpub(F, par, idx)  == IF Hardened(idx) THEN Fail ELSE CKDpubG(F, Neuter(par), 
 (*     encoding for every parent object.                                                                           *)
 Observers == {"address", "address_uncompressed", "address_compressed_false", "address_obj", "wif", "wif_public",
               "wif_private", "wif_key", "public", "hash160", "fingerprint", "as_dict", "as_dict_private", "as_json",
-              "info", "repr", "public_point", "public_uncompressed", "public_byte"}
+              "info", "repr", "public_point", "public_uncompressed", "public_byte",
+              "child_private", "child_public", "subkey_for_path"}      \* deriving a child does not change the parent either
 Observe(key, o) == key
 RECURSIVE AfterHistory(_, _)
 AfterHistory(key, hist) == IF hist = <<>> THEN key ELSE AfterHistory(Observe(key, Head(hist)), Tail(hist))
